@@ -12,6 +12,7 @@ def hx(s):
     return b.hex() if b else '-'
 
 
+AUTO_MARK = 'VERIFAUTO'
 HANDLER_SPECS = ['supervisor.dispatchers:default_handler', 'supervisor.dispatchers:stripEscapes']
 
 
@@ -58,6 +59,10 @@ def _classes():
             so.ServerOptions.read_include_config(self, fp, parser, expansions)
             self.include_done = True
 
+        def mktempfile(self, suffix, prefix, dir):
+            # system-call seam: the name an AUTO child log would get, without creating the file
+            return os.path.join(dir, prefix + AUTO_MARK + suffix)
+
     _state.update(key=key, so=so, RecParser=RecParser, Opts=Opts, real_parser=real_parser)
     return _state
 
@@ -83,6 +88,8 @@ def make_options(env=None):
                 os.environ[k] = v
     o.stderr = io.StringIO()
     o.stdout = io.StringIO()
+    from supervisor.tests.base import DummyLogger
+    o.logger = DummyLogger()          # seam: make_logger() is what main() would call
 
     def _exit(code):
         raise UsageExit(code)
@@ -176,6 +183,7 @@ def _lf(v):
     if v is None: return 'None'
     if v is Automatic: return 'AUTO'
     if v is Syslog: return 'SYSLOG'
+    if AUTO_MARK in v: return 'AUTO'      # an AUTO log file after create_autochildlogs() gave it its name
     return 'P:' + hx(v)
 
 
@@ -247,6 +255,37 @@ def sup_line(o):
             'strip_ansi=%s env=%s') % (s.minfds, s.minprocs, s.umask, s.logfile_maxbytes, s.logfile_backups,
                                        hx(s.identifier), _b(s.nodaemon), _b(s.silent), _b(s.nocleanup),
                                        _b(s.strip_ansi), _env(s.environment))
+
+
+def capture_tokens(o, fn, dirs):
+    """run fn() (which makes `o` read its file) recording the parser; -> (fn's result or exception, model tokens or None)"""
+    st = _classes()
+    so = st['so']
+    pre_env = dict(o.environ_expansions)
+    st['RecParser'].instances.clear()
+    o.include_done = False
+    so.UnhosedConfigParser = st['RecParser']
+    try:
+        try:
+            res = ('ok', fn())
+        except Exception as e:
+            res = ('exc', e)
+    finally:
+        so.UnhosedConfigParser = st['real_parser']
+    inst = st['RecParser'].instances
+    if not inst or not o.include_done:
+        return res, None, None
+    fake = Outcome()
+    fake.parser, fake.include_done, fake.pre_env, fake.here = inst[0], True, pre_env, o.here
+    return res, model_tokens(fake, dirs), inst[0]
+
+
+def cfg_digest(g):
+    return group_line(g) + ';' + ';'.join(proc_line(p) for p in g.process_configs)
+
+
+def list_digest(gs):
+    return '#'.join(cfg_digest(g) for g in gs) or '-'
 
 
 def impl_case(out):
